@@ -69,6 +69,10 @@ Definition c19_violations (cs : list c19_case) : list nat := positions (map c19_
 Record thr_case := Thr { th_p : Z; th_slack : Z; th_starts : list Z }.
 Definition thr_violates (c : thr_case) : bool := negb (spaced (th_p c) (th_slack c) (th_starts c)).
 Definition thr_violations (cs : list thr_case) : list nat := positions (map thr_violates cs).
+(** n handler starts, all between [a] (before the first call entered the middleware) and [b] (the last
+    recorded start): n-2 periods fit (C19_throttle_window), no slack needed *)
+Definition thr_count_violates (p n a b : Z) : bool := negb (Z.leb ((n - 2) * p) (b - a)).
+
 (** the model's own starts for the same arrivals pass with slack 0 (sanity of the encoding) *)
 Definition thr_model_ok (p : Z) (arr : list Z) : bool :=
   spaced p 0 (throttle_run p (new_ticker 0 p) 0 arr).
